@@ -400,6 +400,36 @@ def c12(tier):
     run.validate()
     from . import stages
     stages.conformance(run, [rows_text(b["rows"]) for b in common.tla_json_strings(resn["lines"], "REPLAY")][:4000 if tier == "quick" else 150000])
+    # the whole conversion on the model (Stages!FullDoc: legend split, rows, unquote, spans, quoted texts, canvas):
+    # every text of a small grid over an alphabet with the double quote and a wide character, followed by one of
+    # seven legend tails; replayed: same elements, same canvas, same rules
+    cfgf = write_cfg("MC_Full", {"W": 2, "H": 1 if tier == "quick" else 2,
+                                 "Alphabet": tla_set([32, 34, 45, 124, 97, 19968])},
+                     ["ModelC12x", "ModelC12", "LegendCut", "Emit"], init="Init")
+    resf = run.model("MC_Full", cfgf, timeout=5000)
+    behf = common.tla_json_strings(resf["lines"], "REPLAY")
+    ftexts = ["".join(chr(c) for c in b["text"]) for b in behf]
+    fobs = observe.observe([{"input": t, "want_style": True} for t in ftexts], tag="C12F")
+    for b, t, o in zip(behf, ftexts, fobs):
+        run.replayed += 1
+        doc = o["doc"]
+        style_flat = "\n".join("".join(chr(c) for c in ln) for ln in doc.get("style", []))
+        want_rules = "\n".join(".svgbob .%s{ %s }" % ("".join(map(chr, nm)), "".join(map(chr, dc))) for nm, dc in b["rules"])
+        same = (o["out"] == "return" and real_tuples(doc) == model_tuples(b["out"]) and doc.get("w") == b["w"] * 1000
+                and doc.get("h") == b["h"] * 1000 and style_flat.endswith(want_rules)
+                and (want_rules != "" or style_flat.rstrip().endswith("}")))
+        if not same:
+            run.drift += 1
+            if len(run.drift_samples) < 5:
+                run.drift_samples.append({"input": t, "model": {"w": b["w"], "h": b["h"], "rules": want_rules, "out": b["out"]},
+                                          "real": {"w": doc.get("w"), "h": doc.get("h"), "style_tail": style_flat[-80:]}})
+        # a "# Legend:" that does not start its line is outside the statements (the code cuts there, the
+        # properties speak of a '# Legend:' line): such texts are compared with the model only
+        midline = any("# Legend:" in ln and not ln.lstrip(" \t").startswith("# Legend:") for ln in t.split("\n"))
+        run.add_event({"props": [] if midline else ["C12", "C12x"], "rows": o["rows"], "doc": {k: v for k, v in doc.items() if k != "style"}},
+                      {"input": t, "entry": "to_svg", "source": "MC_Full"})
+    run.notes["full_documents_replayed"] = len(behf)
+    run.validate()
     corpus = [t for t in gen.mixed_corpus(r, n)]
     extra = []
     for i in range(n // 6):
@@ -1149,6 +1179,8 @@ def c16(tier):
         for (nm, dc, eq) in ents:
             body.append({0: "%s = {%s}", 1: "%s={%s}", 2: "%s  =\t {%s}"}[eq] % (nm, dc))
         t = art + "\n" + header + "\n" + "\n".join(body) + r.choice(["", "\n", "\n\n  \n"])
+        if not ents and r.random() < 0.5:
+            t = art + "\n" + header.rstrip("\t ") + r.choice(["", " ", "\t"])        # the header is the very last line, no line ending
         cases.append((t, "C16legend", "legend",
                       {"entries": [[[ord(c) for c in nm], [ord(c) for c in dc], eq] for (nm, dc, eq) in ents]}))
     cat = _json.load(open(os.path.join(common.ROOT, "verifpy", "catalogue.json"), encoding="utf-8"))
